@@ -2,6 +2,8 @@ import Driver.Proto
 import MesonModel.DepPolicy.Model
 import MesonModel.DepPolicy.Policy
 import MesonModel.DepPolicy.Register
+import MesonModel.DepPolicy.Cache
+import MesonModel.Generated.DepCacheTable
 import MesonModel.Version.Model
 import MesonModel.DepPolicy.Wrap
 /- driver commands of area `dep`:
@@ -209,6 +211,31 @@ def handleReg (f : String) : String :=
   | none => "error"
   | some t => ",".intercalate (sortStrs (t.map showKey))
 
+/-! ### C10 (c): the dependency cache -/
+namespace CA
+open MesonModel.DepPolicy.Cache
+
+def parseVal (f : String) : List (List Char) := (splitNE "+" f).map decodeStr
+
+def parseType : String → CType
+  | "p" => .pkgconfig | "c" => .cmake | _ => .other
+
+def parseOp (f : String) : Option Op :=
+  match f.splitOn ":" with
+  | ["s", m, "p", v] => some (.setPkg (m == "b") (parseVal v))
+  | ["s", m, "c", v] => some (.setCmake (m == "b") (parseVal v))
+  | ["p", m, i, t, id] => some (.put (m == "b") (decodeStr i) (decodeStr id) (parseType t))
+  | ["g", m, i] => some (.get (m == "b") (decodeStr i))
+  | ["c", m] => some (.clear (m == "b"))
+  | _ => none
+
+def handleCache (f : String) : String :=
+  let ops := (splitNE "," f).filterMap parseOp
+  let (_, answers) := run MesonModel.Generated.DepCacheTable.table init ops
+  ",".intercalate (answers.map (fun a => match a with | none => "-" | some d => encodeStr d.id))
+
+end CA
+
 def handle (cmd : String) (fs : List String) : String :=
   match cmd, fs with
   | "seq", [wm, fff, ov, ca, sy, pr, sp, reqs] =>
@@ -220,6 +247,7 @@ def handle (cmd : String) (fs : List String) : String :=
     let rs := (splitNE "#" reqs).filterMap parseReq
     "#".intercalate ((policySeq sat w rs).map (fun p => showPOut p.1 ++ "~" ++ showWorld p.2))
   | "reg", [ops] => handleReg ops
+  | "cache", [ops] => CA.handleCache ops
   | "wrap", [cfg, env, faults] => W.handleWrap cfg env faults
   | _, _ => "bad-op"
 
